@@ -19,6 +19,42 @@ def square_name(x):
     return None
 
 
+def _pair_order(b, sym, lhs):
+    """For a tuple local holding two square names: (component that becomes the rook's origin, component that becomes its
+    destination), read off the one struct literal `X { start: Square::from(pair.i), dest: Square::from(pair.j) }` that
+    consumes the pair; None when the pair is used in any other way."""
+    if lhs["p"]:
+        return None
+    name = b.local_name(lhs["l"])
+
+    def comp(x):
+        x = mir.strip_copies(x)
+        if not (x[0] == "call" and x[1].endswith("Square as std::convert::From<&str>>::from") and len(x[2]) == 1):
+            return None
+        v = mir.strip_copies(x[2][0])
+        while v[0] in ("deref", "ref"):
+            v = mir.strip_copies(v[1])
+        if v[0] == "field" and len(v) == 3 and mir.strip_copies(v[1]) == ("var", name) and v[2] in ("0", "1"):
+            return int(v[2])
+        return None
+    found = []
+    for bi, i, st in b.stmts():
+        rv = st["rv"]
+        if rv.get("k") == "agg" and rv.get("agg") == "adt" and len(rv["ops"]) == 2:
+            v = sym.rvalue(rv)
+            if len(v) > 4 and v[4] and len(v[4]) == 2:
+                cs = [comp(x) for x in v[3]]
+                if None in cs or sorted(cs) != [0, 1]:
+                    continue
+                fn = [str(x).lower() for x in v[4]]
+                is_from = [any(w in x for w in ("start", "from", "origin", "src")) for x in fn]
+                if is_from == [True, False]:
+                    found.append((cs[0], cs[1]))
+                elif is_from == [False, True]:
+                    found.append((cs[1], cs[0]))
+    return found[0] if len(found) == 1 else None
+
+
 def rook_table(ix, key):
     """{(king dest rank, file): (rook from, rook to)} read off the match on the king's destination."""
     b = ix.body(key)
@@ -26,12 +62,31 @@ def rook_table(ix, key):
     out = {}
     for bi, i, s in b.stmts():
         rv = s["rv"]
-        if not (rv.get("k") == "agg" and rv.get("agg") == "tuple" and len(rv["ops"]) == 2) and not (rv.get("k") == "use" and "const" in rv["a"]):
+        if not (rv.get("k") == "agg" and rv.get("agg") in ("tuple", "adt") and len(rv["ops"]) == 2) and not (rv.get("k") == "use" and "const" in rv["a"]):
             continue
         v = sym.rvalue(rv)
-        if not (v[0] == "agg" and v[1] == "tuple" and len(v[3]) == 2):
+        if not (v[0] == "agg" and len(v[3]) == 2):
             continue
-        names = [square_name(x) for x in v[3]]
+        elems = list(v[3])
+        if v[1] != "tuple":
+            # a small struct instead of the pair (`RookHop { start, dest }`): which field is the origin is told by its name
+            if str(v[1]).endswith("square::Square") or len(v) < 5 or not v[4] or len(v[4]) != 2:
+                continue
+            fn = [str(x).lower() for x in v[4]]
+            is_from = [any(w in x for w in ("start", "from", "origin", "src")) for x in fn]
+            is_to = [any(w in x for w in ("dest", "to", "end", "target")) for x in fn]
+            if is_from == [False, True] and is_to == [True, False]:
+                elems.reverse()
+            elif not (is_from == [True, False] and is_to == [False, True]):
+                continue
+        names = [square_name(x) for x in elems]
+        if None in names and all(mir.strip_copies(x)[0] == "const" and isinstance(mir.strip_copies(x)[1], str) and len(mir.strip_copies(x)[1]) == 2
+                                 and mir.strip_copies(x)[1][0] in "abcdefgh" and mir.strip_copies(x)[1][1] in "12345678" for x in elems):
+            # the pair of square names, turned into squares once behind the match: every reader of the pair must do just that
+            order = _pair_order(b, sym, s["lhs"])
+            if order is not None:
+                lits = [mir.strip_copies(x)[1] for x in elems]
+                names = [lits[order[0]], lits[order[1]]]
         if None in names:
             continue
         rank = file = None
